@@ -537,7 +537,12 @@ def line_rechunker(case):
 def norm_model_rechunker(mo):
     """collapse the stuttering of the model's state word"""
     head, _, tr = mo.rpartition(" trace=")
-    return head + " trace=" + collapse(tr)
+    tr = collapse(tr)
+    if tr == "OAO":
+        # the new directory is structurally identical to the old one in the model (no rechunking, same
+        # compressor and target); on disk it still is a new directory (time stamps, file sizes)
+        tr = "OAN"
+    return head + " trace=" + tr
 
 
 def cases_rechunker(ctx):
@@ -776,6 +781,49 @@ def dist_key(unit, case, out):
     return "%d groups of %d chunks, %s" % (len(case["groups"]), len(case["layout"]), case["processor"])
 
 
+def coq_store(case):
+    chunks = "; ".join("mkchunk (%d) (%d) [%s] 1 1 (Some 7) (%d)" % (
+        s, e, "; ".join("mkrow (%d) (%d) (%d) (%d)" % tuple(r) for r in rows), case["md_target"])
+        for s, e, rows in unjl(case["layout"]))
+    return "(c16_store_of 1 1 %d %d [%s])" % (COMP[case["md_comp"]], case["md_target"], chunks)
+
+
+def coq_shapes(loaded):
+    """'[s e run=7 n=N ids=a,b ch=.. tgt=T] ...' -> Coq term of type option (list (Z * Z * list Z))"""
+    if loaded.startswith("err") or loaded == "absent":
+        return "None"
+    out = []
+    for part in loaded.replace("] [", "]|[").split("|"):
+        f = part.strip("[]").split()
+        ids = f[4][4:]
+        out.append("((%s), (%s), [%s])" % (f[0], f[1], "; ".join("(%s)" % x for x in ids.split(",")) if ids else ""))
+    return "(Some [%s])" % "; ".join(out)
+
+
+def crosscheck(ctx, unit, cases, mout):
+    """re-evaluate a sample of the model's results inside Coq (vm_compute) against the OCaml driver's output"""
+    if unit not in ("copy", "onload") or not cases:
+        return
+    idxs = sorted(ctx.rng.sample(range(len(cases)), min(25 if ctx.thorough else 8, len(cases))))
+    eqs = []
+    for i in idxs:
+        c, mo = cases[i], mout[i]
+        if unit == "copy":
+            dst = mo.split(" dst=", 1)[1]
+            loaded = "absent" if dst == "absent" else dst.rsplit(" | ", 1)[1].rstrip("}")
+            eqs.append("c16_copy_shapes %s (%d) %s %s (%d) = %s" % (
+                coq_store(c), c["dst_state"], "None" if c["comp"] is None else "(Some %d)" % COMP[c["comp"]],
+                "true" if c["rechunk"] else "false", c["rechunk_to"], coq_shapes(loaded)))
+        else:
+            sel = "None" if c["sel"] is None else "(Some [%s])" % "; ".join("%d%%nat" % i for i in c["sel"])
+            eqs.append("c16_onload_shapes %s %s (%d) = %s" % (coq_store(c), sel, c["tgt"], coq_shapes(mo)))
+    n, fails = lib.coq_crosscheck("C16", "From SV Require Import Model.Rows Model.Chunk Model.CopyRechunk Model.C16Run.", eqs)
+    ctx.coverage.setdefault("kernel_crosscheck", {})[unit] = {"equations": n, "failed_files": len(fails)}
+    if fails:
+        ctx.violation(unit, "extracted model and Coq vm_compute disagree: " + fails[0][-400:],
+                      {"input": "corr:C16/%s/extraction-crosscheck" % unit, "log": fails[0]}, no_failing_input=True)
+
+
 def run_unit(ctx, unit):
     gen_cases, line_fn, real_fn, norm = UNITS[unit]
     cases = gen_cases(ctx)
@@ -805,6 +853,7 @@ def run_unit(ctx, unit):
     if cases:
         k = len(cases) // 2
         ctx.sample({"unit": unit, "case": cases[k], "model": mout[k][:600]})
+    crosscheck(ctx, unit, cases, mout)
 
 
 def run(ctx):
